@@ -326,6 +326,11 @@ func runC12(c *Ctx) {
 								okAmmo = true
 							}
 						}
+						for _, bf := range BoolFactsAt(in) {
+							if isT, whenTrue := sentinelTest(bf.Subj, sentinel); isT && whenTrue == bf.Val {
+								okAmmo = true
+							}
+						}
 					}
 					// (b) in the finish callback of the shared RPS schedule (a closure, a method value, or a function only it calls)
 					okCb := false
